@@ -31,6 +31,11 @@ def emit_tu(rep, units, extra_units):
     for i, (n, t) in enumerate(opsu):
         L.append(f'    vfw::result_types<{t}, R>();')
         L.append(f'    vfw::run_ops<{t}, R>({i}, "{rep}", "{n}", U(2), U(3) + {i});')
+    # scalars of another type than the rep
+    flt = rep in ("float", "double", "long double")
+    scalars = [x for x in (["float", "double", "long double", "int", "int64_t", "uint8_t"] if flt else ["int8_t", "int16_t", "int", "unsigned", "int64_t", "uint64_t", "uint8_t", "float", "double"]) if x != rep and not (x == "int" and rep == "int32_t") and not (x == "unsigned" and rep == "uint32_t")]
+    for j, sc in enumerate(scalars):
+        L.append(f'    vfw::run_mixed_scalar<au::Meters, R, {sc}>({100 + j}, "{rep}", "{sc}", U(2) / 4 + 50, U(3) + {100 + j});')
     L.append("  }")
     L.append('  if (mode == "rt") { vfw::run_roundtrip<au::Meters, R, void>(100, "%s", U(2), U(3), U(4), U(5), (int)U(6)); }' % rep)
     L += ["  vf::print_traps_json(); vf::print_diag_json();", '  printf("{\\"ev\\":\\"done\\"}\\n");', "  return 0;", "}"]
